@@ -118,7 +118,9 @@ func checkC08(c *chk.Ctx) {
 			schema.Files = append(schema.Files, f)
 		}
 		pk := f.Pkg
-		sh.svc, sh.meth, sh.in = fmt.Sprintf("S%d", sh.idx), fmt.Sprintf("M%d", sh.idx), fmt.Sprintf("%s.Req%d", pk, sh.idx)
+		// service names repeat from package to package (S0 .. S29 in each): a versioned API has the same
+		// service name in several proto packages, with other base paths and headers
+		sh.svc, sh.meth, sh.in = fmt.Sprintf("S%d", sh.idx%30), fmt.Sprintf("M%d", sh.idx), fmt.Sprintf("%s.Req%d", pk, sh.idx)
 		msg := &abs.Message{Name: fmt.Sprintf("Req%d", sh.idx)}
 		fld := func(name string, num int, kind string, ann abs.Ann) {
 			msg.Fields = append(msg.Fields, &abs.Field{Name: name, Num: int32(num), Kind: kind, Card: "one", Rules: abs.NoRules(), Ann: ann})
@@ -161,10 +163,13 @@ func checkC08(c *chk.Ctx) {
 		}
 		f.Messages = append(f.Messages, msg)
 		me := &abs.Method{Name: sh.meth, In: sh.in, Out: pk + ".Out"}
+		sv := &abs.Service{Name: sh.svc, Methods: []*abs.Method{me}}
 		if cc.Route != "default" {
 			me.HasCfg, me.Path, me.Verb = true, sh.path, cc.Verb
+			// every service has a base path of its own
+			sv.HasBase, sv.BasePath = true, fmt.Sprintf("/b%d", sh.idx)
+			sh.path = sv.BasePath + sh.path
 		}
-		sv := &abs.Service{Name: sh.svc, Methods: []*abs.Method{me}}
 		hd := &abs.Header{Name: cc.Hname, Type: "string", Required: true}
 		switch hlevel(cc.Hmode) {
 		case "svc":
